@@ -90,6 +90,8 @@ func runLBHealth(x *X) {
 	cumFail := map[string]int{}    // failed responses since the last detected ejection
 	consecFail := map[string]int{} // failed responses in a row (sequential steps only)
 	uncertain := map[string]bool{} // a burst mixed results for this backend: consecutive count unknown
+	lastFailAt := map[string]time.Duration{} // when the backend last answered a failed response
+	everFailed := map[string]bool{}
 	var obs []healthObs
 	evPos := 0
 	clients := []string{"192.0.2.1", "192.0.2.2", "198.51.100.7", "203.0.113.9", "2001:db8::1", "10.9.8.7"}
@@ -131,6 +133,7 @@ func runLBHealth(x *X) {
 		touched := map[string]bool{}
 		failedProbe := map[string]bool{}      // a failed probe completed in this interval (may eject)
 		failedProbeFresh := map[string]bool{} // ... and its window cannot have elapsed yet (must be ejected now)
+		failedProbeAt := map[string]time.Duration{}
 		reqs := map[int]*struct {
 			inv, disp, ans, ret *lbEvent
 		}{}
@@ -203,10 +206,23 @@ func runLBHealth(x *X) {
 				resFail[b]++
 				cumFail[b]++
 				consecFail[b]++
+				lastFailAt[b], everFailed[b] = r.ans.at, true
 			} else {
 				resOK[b]++
 				if !burst {
 					consecFail[b] = 0
+					uncertain[b] = false // a success restarts "in a row" whatever the counter's phase
+				}
+			}
+		}
+		// failures answered while time was passing may have ejected the backend and the window
+		// may have elapsed again before this observation: the counter's phase is unknown
+		if prev != nil {
+			for b, n := range resFail {
+				// ... and so is it when the failure arrived while the backend was already flagged
+				// (a re-ejection leaves no visible flag change)
+				if n > 0 && (cur.at > prev.at || !prev.admin[b]) {
+					uncertain[b] = true
 				}
 			}
 		}
@@ -232,6 +248,9 @@ func runLBHealth(x *X) {
 				if cur.at < pp.doneAt+W {
 					failedProbeFresh[pp.backend] = true
 				}
+				if pp.doneAt > failedProbeAt[pp.backend] {
+					failedProbeAt[pp.backend] = pp.doneAt
+				}
 			}
 		}
 		pprobes = rest
@@ -243,9 +262,19 @@ func runLBHealth(x *X) {
 				was = prev.admin[name]
 			}
 			nowHealthy := cur.admin[name]
-			ejected := !nowHealthy && (was || touched[name])
+			// With threshold 1 every failed response is an ejection of its own, also when the
+			// flag is already down (a late failure of a request that was in flight): the window
+			// restarts. (For larger thresholds the phase of the counter is not observable.)
+			ejected := !nowHealthy && (was || touched[name] || (passive && threshold == 1 && resFail[name] > 0))
 			mustPassive := passive && consecFail[name] >= threshold && !uncertain[name]
 			mayPassive := passive && cumFail[name] >= threshold
+			// a failed probe (re-)ejects at its completion, whatever the flag showed before
+			if !nowHealthy && !ejected && active && failedProbe[name] {
+				at := failedProbeAt[name] + W
+				if w := wins[name]; w == nil || at > w.hi {
+					wins[name] = &win{lo: at, hi: at, known: true, obsSeq: cur.seq}
+				}
+			}
 			if ejected {
 				x.Probe("ejection")
 				lo := time.Duration(0)
@@ -268,7 +297,8 @@ func runLBHealth(x *X) {
 				}
 				consecFail[name], uncertain[name] = 0, false
 			} else {
-				if mustPassive && nowHealthy {
+				// (judged only while the window that failure opened cannot have elapsed)
+				if mustPassive && nowHealthy && cur.at < lastFailAt[name]+W {
 					x.Violate("C04", "C04/not-ejected-at-threshold", "backend %s answered %d failed responses in a row (threshold %d) and is still reported healthy at t=%v", name, consecFail[name], threshold, cur.at)
 				}
 				if failedProbeFresh[name] && nowHealthy && active {
@@ -299,6 +329,11 @@ func runLBHealth(x *X) {
 			for _, b := range net.order {
 				w := wins[b.name]
 				eligible := w == nil || (w.known && w.hi < r.inv.at && w.obsSeq < r.inv.seq)
+				// any failed response may have (re-)ejected the backend — e.g. the late failure of
+				// a request that was in flight — so it is only surely eligible a full window later
+				if everFailed[b.name] && r.inv.at <= lastFailAt[b.name]+W {
+					eligible = false
+				}
 				if eligible {
 					subset := ""
 					for _, bb := range net.order {
@@ -326,6 +361,7 @@ func runLBHealth(x *X) {
 		x.State(strategy, st, fmt.Sprint(threshold))
 	}
 
+	failModes := []string{"s500", "s502", "unreach", "s504"}
 	var prev *healthObs
 	stepObserve := func() bool {
 		cur := observe()
@@ -341,9 +377,66 @@ func runLBHealth(x *X) {
 		return
 	}
 
-	failModes := []string{"s500", "s502", "unreach", "s504"}
 	for i := 0; i < nSteps && !x.dead; i++ {
-		switch c.Pick([]int{8, 4, 3, 4, 2}, "step") {
+		switch c.Pick([]int{8, 4, 3, 4, 2, 2, 2}, "step") {
+		case 6: // biased pattern: failures of requests already in flight arrive late — inside the
+			// window they did not cause, or after it has quietly elapsed — then traffic resumes
+			net.mu.Lock()
+			for _, b := range net.order {
+				b.mode = "s500"
+			}
+			net.mu.Unlock()
+			nslow := 1 + c.Intn(2, "late-n")
+			for j := 0; j < nslow; j++ {
+				d := []time.Duration{W / 2, W + 300*time.Millisecond, W + W/2}[c.Intn(3, "late-d")]
+				cl := clients[c.Intn(len(clients), "client")]
+				s.Spawn("slowreq", func() { h.do(reqSpec{client: cl, path: "/late", plan: &reqPlan{mode: "s500", delay: d}}) })
+				x.Settle(onErr)
+			}
+			x.Fault("slow-failing-request")
+			cl := clients[c.Intn(len(clients), "client")]
+			for j := 0; j < threshold*nb && !x.dead; j++ {
+				x.Do("req", func() { h.do(reqSpec{client: cl, path: "/eject"}) }, onErr)
+				if !stepObserve() {
+					break
+				}
+			}
+			net.mu.Lock()
+			for _, b := range net.order {
+				b.mode = "ok"
+			}
+			net.mu.Unlock()
+			steps = append(steps, fmt.Sprintf("late-failures(%d)", nslow))
+			for j := 0; j < 4 && !x.dead; j++ {
+				x.Advance([]time.Duration{W / 2, W/2 + 200*time.Millisecond, W / 4, W + 100*time.Millisecond}[c.Intn(4, "late-gap")], onErr)
+				if !stepObserve() {
+					break
+				}
+				x.Do("req", func() { h.do(reqSpec{client: cl, path: "/after"}) }, onErr)
+				if !stepObserve() {
+					break
+				}
+			}
+			continue
+		case 5: // a slow request that stays in flight across the following steps and then fails
+			cl := clients[c.Intn(len(clients), "client")]
+			var d time.Duration
+			switch c.Intn(4, "slow-d") {
+			case 0:
+				d = W / 2
+			case 1:
+				d = W + 500*time.Millisecond
+			case 2:
+				d = 2*W + 250*time.Millisecond
+			case 3:
+				d = 750 * time.Millisecond
+			}
+			fm := failModes[c.Intn(len(failModes), "failmode")]
+			steps = append(steps, fmt.Sprintf("slowfail(%s,%v,%s)", cl, d, fm))
+			x.Fault("slow-failing-request")
+			s.Spawn("slowreq", func() { h.do(reqSpec{client: cl, path: "/slow", plan: &reqPlan{mode: fm, delay: d}}) })
+			x.Settle(onErr)
+			continue
 		case 0: // single request
 			cl := clients[c.Intn(len(clients), "client")]
 			steps = append(steps, "req("+cl+")")
@@ -402,11 +495,12 @@ func runLBHealth(x *X) {
 		case 4: // burst of concurrent requests
 			k := 2 + c.Intn(3, "burst")
 			steps = append(steps, fmt.Sprintf("burst(%d)", k))
+			var ts []*simrt.Task
 			for j := 0; j < k; j++ {
 				cl := clients[c.Intn(len(clients), "client")]
-				s.Spawn("burst", func() { h.do(reqSpec{client: cl, path: "/burst"}) })
+				ts = append(ts, s.Spawn("burst", func() { h.do(reqSpec{client: cl, path: "/burst"}) }))
 			}
-			x.RunTasks(onErr)
+			x.WaitFor(onErr, ts...)
 		}
 		if !stepObserve() {
 			break
@@ -415,6 +509,11 @@ func runLBHealth(x *X) {
 	x.Sample["steps"] = steps
 
 	// ---- recovery (C04 bounded liveness, C02) -----------------------------------
+	// slow requests that are still in flight finish (and fail) first
+	if !x.dead {
+		x.RunTasks(onErr)
+		stepObserve()
+	}
 	if !x.dead {
 		net.mu.Lock()
 		for _, b := range net.order {
